@@ -157,7 +157,11 @@ CLAIMED = {
 PM_NOTE = ('Modelled, not verified: Process.step / step_until_terminated / pause / play / kill / resume / fail / call_soon / '
            'transition_to / Waiting / the workchain awaitables as the hand-written Lean model PMF, compared with real plumpy '
            'after EVERY op on a deterministic one-callback-at-a-time asyncio loop (all placements of <= K requests over a program '
-           'corpus + random programs); asyncio itself, kiwipy and contextvars are trusted. User step functions are oracles.')
+           'corpus + random programs); asyncio itself, kiwipy and contextvars are trusted. User step functions are oracles. '
+           'Control requests issued from INSIDE listener notifications and state-event callbacks (during transitions, during the '
+           'enactment of a pending request) are modelled by PMF.L (lean/PlumpyModel/PM/Listener.lean: the same functions with an '
+           'oracle plan consulted at every notification point) and compared after every op through `pmodel pml` on every case of '
+           'the listener stream.')
 
 
 def pm(text, technique='Lean 4 invariant proofs over the process-control model (induction over arbitrary event histories) + '
@@ -169,8 +173,11 @@ CLAIMED.update({
     'C01': pm('Theorems C01_graph_is_documented (the ALLOWED sets generated from the source equal the documented graph), '
               'C01_edges_documented (for every program and every history of ticks and requests the entered-state log is a path of '
               'that graph) and C01_terminal_states_final (from any terminal configuration no history changes state or log). '
+              'With requests issued by listeners / state-event callbacks during transitions (model PMF.L): '
+              'C01_listener_edges_documented, C01_listener_terminal_states_final, C01_listener_terminal_transition_completes. '
               'The Python monitor checks the same two clauses on every explored real run.'),
-    'C02': pm('Theorems C02_outcome_agrees / C02_nothing_reported_while_live / C02_future_resolved_iff_terminated: for every history, '
+    'C02': pm('Theorems C02_outcome_agrees / C02_nothing_reported_while_live / C02_future_resolved_iff_terminated (and, with requests '
+              'issued by listeners during transitions, C02_listener_outcome_agrees / C02_listener_nothing_reported_while_live): for every history, '
               'terminal <=> future resolved, with exactly the outcome of the state object, closed, cleanups run once, one terminal '
               'notification; while live nothing is reported. "step_until_terminated() returns": C02_stepper_returns (for every program '
               'and every history, in a terminated configuration finitely many wake-ups of the stepping task end it normally), from '
@@ -184,9 +191,19 @@ CLAIMED.update({
               'C04_end_of_step_kills, C04_pause_keeps_kill, C04_second_kill_same_action, C04_no_stale_killing and '
               'C04_always_killable (from EVERY reachable live configuration a further kill() kills at once or is the pending kill of '
               'the step in flight). The monitor additionally checks the result of kill(), the kill text, future cancellation, that no '
-              'step function starts after the request, that a failed step excepts, and requests issued from listener notifications.'),
+              'step function starts after the request, that a failed step excepts, and requests issued from listener notifications. '
+              'Requests made DURING transitions by listeners / state-event callbacks (model PMF.L, every program, plan, history): '
+              'C04_listener_no_stale_killing (invariant KJ in every reachable configuration), C04_listener_kill_committed (a kill() '
+              'issued by a listener on a live process, inside or outside a step, also while a pause is being enacted, has left the '
+              'process KILLED / EXCEPTED or is the pending interrupt action of the step in flight), '
+              'C04_listener_kill_effective_between_steps, C04_listener_pending_kill_enacted and C04_listener_kill_enacted (it is '
+              'enacted when the closing part of the step returns), C04_listener_nothing_left_pending (the finally of step() cancels '
+              'nothing a listener asked for on a live process).'),
     'C05': pm('Theorems C05_nothing_runs_while_paused (no activation in any history starts with paused = true), C05_pause_total, '
-              'C05_play_total, C05_play_unpauses, C05_play_cancels_pending_pause, C05_status_restored (status model). Transparency is '
+              'C05_play_total, C05_play_unpauses, C05_play_cancels_pending_pause, C05_status_restored (status model). With requests made by '
+              'listeners during transitions (model PMF.L): C05_listener_nothing_runs_while_paused (every program, plan, history), '
+              'C05_listener_no_stale_interruption, C05_listener_new_wait_not_interrupted, C05_listener_play_unpauses, '
+              'C05_listener_requests_deferred, C05_listener_play_retracts. Transparency is '
               'a theorem for a class of histories: C05_transparent_partial (simulation between the run with pause/play requests and '
               'the run of its reference history = the same history without pause/play and without the ticks spent suspended on a '
               'pause future), C05_same_result_partial (when the run with pauses has terminated, the run without any pause/play has '
